@@ -691,19 +691,19 @@ class PurityWorld:
         kind = m["kind"]
         meth = op["method"]
         what = f"{meth} of {kind}"
-        pos, a = split_args(self.resolve(op["args"]))
+        pos, a = split_args(self.resolve(op["args"]), meth)
 
         def call(o=obj, pos=pos, a=a):
             return getattr(o, meth)(*pos, **a)
 
         def dry():
             o2 = copy.deepcopy(obj)
-            p2, a2 = split_args(self.resolve(op["args"], fresh=True))
+            p2, a2 = split_args(self.resolve(op["args"], fresh=True), meth)
             return getattr(o2, meth)(*p2, **a2)
 
         def sweep():
             o2 = copy.deepcopy(obj)
-            p3, a3 = split_args(self.resolve(op["args"]))
+            p3, a3 = split_args(self.resolve(op["args"]), meth)
             return (lambda: getattr(o2, meth)(*p3, **a3)), o2
 
         res, exc, injected, out = self.guarded(
@@ -756,7 +756,7 @@ class PurityWorld:
         tw = m.get("twin")
         if tw is not None and meth != "fit_transform":
             try:
-                p2, a2 = split_args(self.resolve(op["args"], fresh=True))
+                p2, a2 = split_args(self.resolve(op["args"], fresh=True), meth)
                 with self.env.op({k: v for k, v in (op.get("env") or {}).items() if k in ("rng",)} or None):
                     exp = getattr(tw, meth)(*p2, **a2)
                 d = same(res, exp, path=meth)
@@ -890,12 +890,12 @@ class PurityWorld:
 PRIMARY = ("X", "K", "Knm", "T", "X_tr", "x1")
 
 
-def split_args(a):
+def split_args(a, meth=None):
     """The leading data argument is passed positionally, as callers do (scikit-learn
     wraps transform/fit_transform with a (self, X, *args, **kwargs) signature)."""
     a = dict(a)
     pos = list(a.pop("__pos__", []))
-    if not pos:
+    if not pos and not (meth == "predict" and "T" in a):
         for k in PRIMARY:
             if k in a:
                 pos = [a.pop(k)]
